@@ -558,6 +558,21 @@ func delPeer(t *Torrent, p *peer.Peer) bool {
 			t.peers = nil
 		}
 	}
+	// the peer's loop has exited; release the chunks of any requests
+	// that are still sitting in its mailbox
+drain:
+	for {
+		select {
+		case e := <-p.Event:
+			if e, ok := e.(peer.PeerRequest); ok {
+				for _, c := range e.Chunks {
+					noteInFlight(t, c, false)
+				}
+			}
+		default:
+			break drain
+		}
+	}
 	// at this point, the dying peer won't reply to a GetPex request
 	addr := p.GetAddr()
 	if addr.Port() > 0 {
